@@ -67,8 +67,10 @@ InPosition ==
   /\ Ev.ev = "in" /\ Ev.cmd = "position"
   /\ LET pf == ParseFen(Ev.fen)
          r == PlayLine(pf.pos, Ev.moves, 1)
-     IN gamePos' = IF pf.ok /\ r.ok THEN r.pos ELSE gamePos      \* a rejected move list leaves the position as it was
-  /\ Record(<< <<mode # "searching", "C07", "harness sent position during a search (ill-behaved GUI)", "idle">> >>)
+     \* a rejected move list leaves the position as it was; a position command that arrives while a search is running is DROPPED
+     \* (search.rs, check_messages: "Ignore during go") - the recorders send one only into searches that cannot end by themselves
+     IN gamePos' = IF pf.ok /\ r.ok /\ mode # "searching" THEN r.pos ELSE gamePos
+  /\ NoRecord
   /\ UNCHANGED <<sess, mode, go, lastDepth, lastNodes, lastTime, lastPV, lastScore, doneScore, nsearch, expect, ntr>>
 
 InGo ==
